@@ -8,6 +8,10 @@ Stage C (oracle): einsum reconstruction of the input from the factors with the d
 (FULL SVD: leading len(S) columns / rows), isometry of Q, U, Vh (KEEP: Q^H Q an orthogonal projector),
 S >= 0 descending, prescribed bond dimension, KEEP single-leg shape, all contraction modes give the
 same product, truncated SVD attains the Eckart-Young error.
+Value level (`tdot`): the Lean model `arrTensordot` (NumPy's implementation of `tensordot` - transpose, reshape,
+matrix product, reshape - on shape + flat C-order data; proved to compute `Ptn.Ein.sumPairs`) is compared exactly with
+`numpy.tensordot` on small integer arrays, including which requests are rejected; oracle: the definition of the
+contraction as one `numpy.einsum` over labelled axes.
 """
 from __future__ import annotations
 
@@ -30,7 +34,10 @@ RULE = ("cases: tensors of order 1-6 with dims from {1,2,3,5} (size-capped), eve
         "`mode` omitted / positional / keyword, contr_truncated_svd_splitting with both optional arguments omitted "
         "(documented defaults), input arrays in C / Fortran order, as offset or strided views and read-only, single "
         "precision, overall scales 1e-12 .. 1e8, NumPy integers as legs, tensor_matricization(correctly_ordered=True) "
-        "and transpose_tensor_by_leg_list called directly. "
+        "and transpose_tensor_by_leg_list called directly. Family `tdot`: two integer arrays of order 0-4 with dims "
+        "from {1,2,3}, 0..min(order) contracted axis pairs at random positions in random order (none contracted, all "
+        "contracted, dimension-1 axes), every fifth request malformed (unequal dimensions, a repeated axis, an axis out "
+        "of range, axis lists of different length). "
         "non-trivial = distinct case with a non-identity leg permutation, an empty side, a wide or tall "
         "matricisation under FULL/KEEP, a rank-deficient tensor, or a rejected input")
 PARTIAL = ["numerical clauses: that Q R = M, U S Vh = M entrywise, that Q/U/Vh are isometries and S >= 0 descending is the "
@@ -39,8 +46,12 @@ PARTIAL = ["numerical clauses: that Q R = M, U S Vh = M entrywise, that Q/U/Vh a
            "entries for all modes (matricize_unmatricize, qr_reconstructs, keep_reconstructs incl. zero padding, "
            "svd_reconstructs incl. FULL's leading len(S) columns/rows), on a value-level model of transpose / C-order "
            "reshape / pad (Ptn/C11/Value.lean) that is compared with NumPy on every QR/SVD case (`matidx`)",
-           "that np.transpose / np.reshape / np.pad implement that value-level model is trusted (DESIGN.md section 2) and "
-           "exercised by the matidx comparison and the einsum reconstruction"]
+           "that np.transpose / np.reshape / np.pad / np.dot implement that value-level model is trusted (DESIGN.md section 2) "
+           "and exercised by the matidx comparison, the einsum reconstruction and the `tdot` family; GIVEN that model, "
+           "numpy.tensordot (its Python implementation transcribed as arrTensordot) is PROVED to compute the labelled "
+           "contraction Ptn.Ein.sumPairs / Expr.dot (arr_tensordot_entry, arr_tensordot_is_sumPairs, arr_tensordot_is_dot), "
+           "to accept exactly the well-formed requests (arr_tensordot_accepts_iff), and a transposition to be a relabelling "
+           "(arr_transpose_relabel)"]
 ASSUMPTIONS = ["leg lists contain non-negative Python ints (NumPy would also accept negative axes)",
                "both leg lists have the same sequence type (tuple + list raises TypeError in the library)"]
 
@@ -252,6 +263,177 @@ def _build_tensor(case):
     return rnd(sh)
 
 
+# ------------------------------------------------------------------ tensordot (value-level model of numpy.tensordot)
+
+def gen_tdot_cases(ctx):
+    """Random `numpy.tensordot` requests on small integer arrays (private random stream: the other families are
+    unchanged).  Every fifth request is malformed."""
+    rng = ctx.subrng("tdot")
+    cases = []
+    dims = [1, 2, 2, 3, 3]
+    for k in range(ctx.n(400, 4000)):
+        while True:
+            na, nb = rng.choice([0, 1, 2, 2, 3, 3, 4]), rng.choice([0, 1, 2, 2, 3, 3, 4])
+            style = rng.choice(["none", "all", "all", "rand", "rand", "rand", "rand", "rand"])
+            c = {"none": 0, "all": min(na, nb)}.get(style, rng.randint(min(1, na, nb), min(na, nb)))
+            if style == "all":
+                if rng.random() < 0.5:
+                    na = nb = c                        # both arrays fully contracted: a scalar
+                elif rng.random() < 0.5:
+                    nb = c
+            cd = [rng.choice(dims) for _ in range(c)]
+            ia = rng.sample(range(na), c)
+            ib = rng.sample(range(nb), c)
+            sa = [rng.choice(dims) for _ in range(na)]
+            sb = [rng.choice(dims) for _ in range(nb)]
+            for d, x, y in zip(cd, ia, ib):
+                sa[x] = d
+                sb[y] = d
+            if k % 5 == 4 and c == 0 and rng.random() < 0.8:
+                continue                               # malformed requests mostly derive from a real contraction
+            if _prod(sa) <= 120 and _prod(sb) <= 120 and _prod(sa) * _prod(sb) <= 1500 * max(1, _prod(cd)) ** 2:
+                break
+        bad = None
+        if k % 5 == 4:
+            bad = rng.choice(["dim", "repeat", "range", "length"])
+            if bad == "dim":
+                if c == 0:
+                    bad = "length"
+                else:
+                    j = rng.randrange(c)
+                    sb[ib[j]] = rng.choice([d for d in (1, 2, 3, 4) if d != sa[ia[j]]])
+            if bad == "repeat":
+                if c == 0 or (c == 1 and rng.random() < 0.5 and na >= 1 and nb >= 1):
+                    if na >= 1 and nb >= 1 and sa[0] == sb[0]:
+                        ia, ib = [0, 0], [0, 0]        # the same axis twice on both sides
+                    else:
+                        bad = "length"
+                else:
+                    j = rng.randrange(c)
+                    which = rng.choice(["a", "b"])
+                    if which == "a":
+                        ia = ia + [ia[j]]
+                        extra = [y for y in range(nb) if y not in ib and sb[y] == sa[ia[j]]]
+                        ib = ib + [rng.choice(extra) if extra else ib[j]]
+                    else:
+                        ib = ib + [ib[j]]
+                        extra = [x for x in range(na) if x not in ia and sa[x] == sb[ib[j]]]
+                        ia = ia + [rng.choice(extra) if extra else ia[j]]
+            if bad == "range":
+                if c == 0:
+                    ia, ib = [na + rng.randint(0, 1)], [nb + rng.randint(0, 1)]
+                else:
+                    j = rng.randrange(c)
+                    if rng.random() < 0.5:
+                        ia = ia[:j] + [na + rng.randint(0, 2)] + ia[j + 1:]
+                    else:
+                        ib = ib[:j] + [nb + rng.randint(0, 2)] + ib[j + 1:]
+            if bad == "length":
+                if c >= 1 and rng.random() < 0.6:
+                    if rng.random() < 0.5:
+                        ia = ia[:-1]
+                    else:
+                        ib = ib[:-1]
+                else:
+                    free_a = [x for x in range(na) if x not in ia]
+                    free_b = [y for y in range(nb) if y not in ib]
+                    if free_a and (not free_b or rng.random() < 0.5):
+                        ia = ia + [rng.choice(free_a)]
+                    elif free_b:
+                        ib = ib + [rng.choice(free_b)]
+                    else:
+                        bad = None                     # two scalars: nothing to break
+        cases.append({"kind": "tdot", "sa": sa, "sb": sb, "ia": list(ia), "ib": list(ib),
+                      "seed": rng.randrange(10 ** 9), "bad": bad})
+    return cases
+
+
+def _tdot_arrays(case):
+    nprng = np.random.default_rng(case["seed"])
+    a = nprng.integers(-4, 5, size=tuple(case["sa"])).astype(np.int64)
+    b = nprng.integers(-4, 5, size=tuple(case["sb"])).astype(np.int64)
+    return a, b
+
+
+def _csv(xs):
+    return ",".join(str(int(x)) for x in xs) or "-"
+
+
+def _tdot_line(case):
+    a, b = _tdot_arrays(case)
+    return " ".join(["C11", "tdot", _csv(case["sa"]), _csv(a.reshape(-1)), _csv(case["sb"]), _csv(b.reshape(-1)),
+                     _csv(case["ia"]), _csv(case["ib"])])
+
+
+def _tdot_definition(a, b, ia, ib):
+    """The definition of the contraction, independent of numpy.tensordot: one einsum over labelled axes - the axes of
+    `a` are labelled 0.., those of `b` after them, a contracted axis of `b` takes the label of its partner; output =
+    remaining labels of `a`, then of `b`.  Returns None when the request is not well formed."""
+    na, nb = a.ndim, b.ndim
+    if len(ia) != len(ib) or len(set(ia)) != len(ia) or len(set(ib)) != len(ib):
+        return None
+    if any(x >= na for x in ia) or any(y >= nb for y in ib):
+        return None
+    if any(a.shape[x] != b.shape[y] for x, y in zip(ia, ib)):
+        return None
+    la = list(range(na))
+    lb = [na + y for y in range(nb)]
+    for x, y in zip(ia, ib):
+        lb[y] = la[x]
+    out = [la[x] for x in range(na) if x not in ia] + [na + y for y in range(nb) if y not in ib]
+    return np.einsum(a, la, b, lb, out)
+
+
+def _case_tdot(ctx, case, model_out):
+    a, b = _tdot_arrays(case)
+    ia, ib = case["ia"], case["ib"]
+    c = len(ia)
+    ref = _tdot_definition(a, b, ia, ib)
+    wellformed = ref is not None
+    ctx.tally("tdot_request", case.get("bad") or "ok")
+    ctx.tally("tdot_contracted", f"{c} of ({a.ndim},{b.ndim})")
+    ctx.tally("tdot_dim1", any(a.shape[x] == 1 for x in ia if x < a.ndim))
+    key = ("tdot", tuple(case["sa"]), tuple(case["sb"]), tuple(ia), tuple(ib), case["seed"])
+    ctx.count(key, nontrivial=(not wellformed) or (c >= 1 and a.ndim + b.ndim >= 3), corr=True)
+    try:
+        got = np.tensordot(a, b, axes=(list(ia), list(ib)))
+        err = None
+    except Exception as e:              # noqa: BLE001
+        got, err = None, type(e).__name__
+    if model_out == "bad-op":
+        ctx.corr_fail(case, "tdot: the driver did not understand the request")
+        return
+    if err is not None:
+        if wellformed:
+            ctx.oracle_fail(case, f"tdot: numpy.tensordot raised {err} on a well-formed request {case['sa']} {case['sb']} "
+                                  f"axes {ia} {ib}")
+        if model_out != "error":
+            ctx.corr_fail(case, f"tdot: numpy.tensordot rejects shapes {case['sa']} {case['sb']} axes {ia} {ib} ({err}), "
+                                f"the model answers {model_out[:100]}")
+        elif wellformed:
+            ctx.corr_fail(case, "tdot: model and NumPy both reject a well-formed request")
+        return
+    if not wellformed:
+        ctx.oracle_fail(case, f"tdot: numpy.tensordot accepts the malformed request shapes {case['sa']} {case['sb']} "
+                              f"axes {ia} {ib}")
+        if model_out != "error":
+            ctx.corr_fail(case, f"tdot: the model accepts a malformed request: {model_out[:100]}")
+        return
+    if model_out == "error":
+        ctx.corr_fail(case, f"tdot: the model rejects shapes {case['sa']} {case['sb']} axes {ia} {ib}, numpy.tensordot "
+                            f"returns shape {list(got.shape)}")
+        return
+    want = f"shape={_csv(got.shape)} data={_csv(np.asarray(got).reshape(-1))}"
+    if model_out != want:
+        ctx.corr_fail(case, f"tdot: shapes {case['sa']} {case['sb']} axes {ia} {ib}: model [{model_out[:160]}] != "
+                            f"numpy.tensordot [{want[:160]}]")
+    if got.shape != ref.shape or not np.array_equal(got, ref):
+        ctx.oracle_fail(case, f"tdot: numpy.tensordot differs from the labelled contraction (einsum) for shapes "
+                              f"{case['sa']} {case['sb']} axes {ia} {ib}")
+    if len(ctx.samples) < 6 and c >= 2:
+        ctx.sample(case, limit=6)
+
+
 def _mat_ij(case):
     """A seeded entry (i, j) of the matricised tensor."""
     sh, a, b = case["shape"], case["a"], case["b"]
@@ -266,6 +448,8 @@ def _matidx_line(case):
 
 def model_lines(case):
     k = case["kind"]
+    if k == "tdot":
+        return [_tdot_line(case)]
     if k == "qr":
         return [line_three(f"qr {case['mode']}", case["shape"], case["a"], case["b"]), _matidx_line(case)]
     if k == "svd":
@@ -284,6 +468,7 @@ def run(ctx):
     cases = []
     for path in sorted(glob.glob(os.path.join(common.CORPUS_DIR, "C11", "*.json"))):
         cases.append(common.unjson(json.load(open(path)))["case"])
+    cases += gen_tdot_cases(ctx)
     cases += gen_cases(ctx)
     lines, where = [], []
     for c in cases:
@@ -311,6 +496,8 @@ def run_case(ctx, case, model_out=None):
             _check_matidx(ctx, case, model_out[1])
         elif kind == "contr":
             _case_contr(ctx, case, model_out)
+        elif kind == "tdot":
+            _case_tdot(ctx, case, model_out[0])
         else:
             _case_invalid(ctx, case, model_out[0])
 
@@ -711,7 +898,37 @@ def _case_invalid(ctx, case, model_out):
 
 # ------------------------------------------------------------------ shrinking
 
+def _shrink_tdot(case):
+    sa, sb, ia, ib = case["sa"], case["sb"], case["ia"], case["ib"]
+
+    def drop(sh, axes, x):
+        return sh[:x] + sh[x + 1:], [y - (y > x) for y in axes if y != x]
+    for x in range(len(sa)):                            # drop a remaining axis of a / of b
+        if x not in ia:
+            s2, i2 = drop(sa, ia, x)
+            yield dict(case, sa=s2, ia=i2)
+    for y in range(len(sb)):
+        if y not in ib:
+            s2, i2 = drop(sb, ib, y)
+            yield dict(case, sb=s2, ib=i2)
+    if len(ia) == len(ib) and len(set(ia)) == len(ia) and len(set(ib)) == len(ib) and \
+            all(x < len(sa) for x in ia) and all(y < len(sb) for y in ib):
+        for j in range(len(ia)):                        # drop a contracted pair
+            s2, i2 = drop(sa, ia[:j] + ia[j + 1:], ia[j])
+            t2, j2 = drop(sb, ib[:j] + ib[j + 1:], ib[j])
+            yield dict(case, sa=s2, ia=i2, sb=t2, ib=j2)
+    for x, d in enumerate(sa):                          # smaller dimensions of remaining axes
+        if d > 1 and x not in ia:
+            yield dict(case, sa=sa[:x] + [d - 1] + sa[x + 1:])
+    for y, d in enumerate(sb):
+        if d > 1 and y not in ib:
+            yield dict(case, sb=sb[:y] + [d - 1] + sb[y + 1:])
+
+
 def shrink(case):
+    if case["kind"] == "tdot":
+        yield from _shrink_tdot(case)
+        return
     sh = case["shape"]
     if case["kind"] != "invalid":
         if case.get("fill") != "normal":
